@@ -1515,6 +1515,7 @@ static void mi_segments_try_abandon(mi_heap_t* heap, mi_segments_tld_t* tld) {
 void mi_collect_reduce(size_t target_size) mi_attr_noexcept {
   mi_collect(true);
   mi_heap_t* heap = mi_heap_get_default();
+  if (heap == NULL || heap->tld == NULL) return;  // the thread could not be initialized (out of memory)
   mi_segments_tld_t* tld = &heap->tld->segments;
   size_t target = target_size / MI_SEGMENT_SIZE;
   if (target == 0) {
